@@ -229,6 +229,43 @@ fn builder_path(fs: &Fields, rows: &[Value], from: &str, to: &str, how: &str) ->
     })
 }
 
+/// a REUSED builder: rows added, `to_<first>()`, the same rows added again, `to_<to>()` — the second build is returned
+/// (it must be what a fresh builder gives for these rows: C10 through every back end, the batch schema included)
+fn builder_path_again(fs: &Fields, rows: &[Value], from: &str, first: &str, to: &str, how: &str) -> (Value, Option<Built>) {
+    let field_err = match from {
+        "arrow" => fs.a.as_ref().err().cloned(),
+        "arrow2" => fs.a2.as_ref().err().cloned(),
+        _ => None,
+    };
+    if let Some(e) = field_err {
+        return (json!({ "field_err": e }), None);
+    }
+    run_keep(|| {
+        let mut b = match from {
+            "marrow" => serde_arrow::ArrayBuilder::from_marrow(&fs.m)?,
+            "arrow" => serde_arrow::ArrayBuilder::from_arrow(fs.a.as_ref().unwrap())?,
+            _ => serde_arrow::ArrayBuilder::from_arrow2(fs.a2.as_ref().unwrap())?,
+        };
+        let mut last = None;
+        for to in [first, to] {
+            if how == "push" {
+                for r in rows {
+                    b.push(&SVal(r))?;
+                }
+            } else {
+                b.extend(&Rows(rows))?;
+            }
+            last = Some(match to {
+                "marrow" => Built::M(b.to_marrow()?),
+                "arrow" => Built::A(b.to_arrow()?),
+                "batch" => Built::B(b.to_record_batch()?),
+                _ => Built::A2(b.to_arrow2()?),
+            });
+        }
+        Ok(last.unwrap())
+    })
+}
+
 fn built_out(run: Value, built: &Option<Built>) -> Value {
     ser_out(run, built.as_ref().map(|b| b.views()))
 }
@@ -285,6 +322,16 @@ pub fn exec(input: &Value) -> Value {
             _ => Value::Null,
         };
         cross.push(json!({"from": from, "to": to, "how": xhow, "out": built_out(run, &built), "batch": info}));
+    }
+
+    // ---- reused builders: second build after a first one through the same back end family
+    for (from, first, to) in [("marrow", "marrow", "marrow"), ("arrow", "batch", "batch"), ("arrow", "arrow", "batch"), ("arrow", "batch", "arrow"), ("arrow2", "arrow2", "arrow2")] {
+        let (run, built) = builder_path_again(&fs, rows, from, first, to, how);
+        let info = match &built {
+            Some(Built::B(b)) => batch_info(b),
+            _ => Value::Null,
+        };
+        cross.push(json!({"from": from, "to": to, "how": how, "first": first, "out": built_out(run, &built), "batch": info}));
     }
 
     // ---- the adapter equations, right-hand sides with the public API only:
